@@ -45,7 +45,9 @@ theorem foldlM_inv {σ α : Type} (step : σ → α → Option σ) (Inv : σ →
       simp only [hs] at h
       exact ih s' r (hstep _ _ _ hi hs) h
 
-def LenOk (s : Bytes) : Prop := s.length ≤ maxOsmStringLength
+/-- what `decode_stringtable` guarantees of every entry it lets through: at most
+    `max_osm_string_length` bytes AND (repair da64936) no embedded NUL byte -/
+def LenOk (s : Bytes) : Prop := s.length ≤ maxOsmStringLength ∧ HostileLayout.noNul s = true
 
 def TableOk (p : Params) : Prop := ∀ s ∈ p.strings, LenOk s
 
@@ -56,7 +58,7 @@ def NotCs : Object → Prop
 
 def ObjOk (o : Object) : Prop := (∀ s ∈ strsOf o, LenOk s) ∧ NotCs o
 
-theorem lenOk_nil : LenOk [] := by simp [LenOk]
+theorem lenOk_nil : LenOk [] := ⟨by simp, rfl⟩
 
 theorem lookup_mem (strs : List Bytes) (i : Int) (s : Bytes) (h : lookup strs i = some s) : s ∈ strs := by
   unfold lookup at h
@@ -84,7 +86,8 @@ theorem decodeStringTable_ok (cur : List Bytes) (payload : Bytes) (ss : List Byt
         rename_i hany
         intro s hs
         have := List.any_eq_false.mp (Bool.eq_false_iff.mpr hany) s hs
-        simpa [LenOk] using this
+        simp only [Bool.or_eq_true, decide_eq_true_eq, not_or, Bool.not_eq_true] at this
+        exact ⟨by omega, by unfold HostileLayout.noNul; rw [this.2]; rfl⟩
 
 theorem blockMetaStep_ok (p : Params) (f : Field) (p' : Params) (hp : TableOk p)
     (h : blockMetaStep p f = some p') : TableOk p' := by
